@@ -40,6 +40,8 @@ THEOREMS = [
     "RefineShortTip.while_walk", "RefineShortTip.for2_step", "RefineShortTip.for2_loop", "RefineShortTip.tipLeave_node",
     "RefineShortTip.spec_tipLeave", "RefineShortTip.cbOk_top", "RefineShortTip.tipRemoved_eq", "RefineShortTip.cutShortTip_refines",
     "C06.generated_cutShortTip_eq_model", "C06.generated_cutShortTip_removed", "C06.generated_cutShortTip_calls", "C06.generated_tipLeave_node",
+    # tree_utils_impl.py::to_subtree_impl over all columns: exact characterisation on every input; = model compaction + takeRows of every column
+    "RefineShortTip.toSubtreeImpl_eq", "RefineShortTip.take_inrange", "RefineShortTip.toSubtreeImpl_refines", "C06.generated_toSubtreeImpl_eq_model",
 ]
 TRUSTED = ["hand-written models Model/Subtree.lean of to_sub_topology / propagate_removal / get_subtree_impl / to_subtree / cut_tree / CutByType / "
            "CutByFurcationOrder / CutShortTipBranch (tied by the c06.ops correspondence: new parents and new→old mapping compared exactly; all of them are "
@@ -479,6 +481,29 @@ class Ops(Suite):
                 extra["container2"] = dump_container(om2)
         elif k == "tosub":
             y = extract(op, om)
+            # the gather behind it, called directly on the marked topology `to_subtree` builds, with a pre-filled list as `out_mapping`
+            # (compared with the GENERATED to_subtree_impl over the columns id / pid / type / r, op gsubimpl)
+            from swcgeom.core.swc_utils import REMOVAL as REMOVAL_, propagate_removal
+            from swcgeom.core.tree_utils_impl import to_subtree_impl
+            try:
+                marked = t.id().copy()
+                for i in op["rm"]:
+                    marked[i] = REMOVAL_
+                sub = propagate_removal((marked, t.pid()))
+                sub0 = (sub[0].copy(), sub[1].copy())
+                cols0 = {c: np.array(t.get_ndata(c), copy=True) for c in t.keys()}
+                om3 = [7, 7]
+                n3, nd3, src3, nm3 = to_subtree_impl(t, sub, out_mapping=om3)
+                extra["impl"] = {"sub_ids": sub0[0].tolist(), "sub_pids": sub0[1].tolist(), "n": int(n3),
+                                 "id": nd3[t.names.id].tolist(), "pid": nd3[t.names.pid].tolist(), "type": nd3[t.names.type].tolist(),
+                                 "r8": [int(round(float(v) * 8)) for v in nd3[t.names.r]], "mapping": [int(v) for v in om3],
+                                 "in_types": t.type().tolist(), "in_r8": [int(round(float(v) * 8)) for v in t.r()],
+                                 "in_ids": t.id().tolist(), "in_pids": t.pid().tolist(),
+                                 "same": bool(src3 == t.source and nm3 is t.names and sorted(nd3.keys()) == sorted(t.keys())
+                                              and all(np.array_equal(cols0[c], t.get_ndata(c)) for c in cols0)
+                                              and np.array_equal(sub0[0], sub[0]) and np.array_equal(sub0[1], sub[1]))}
+            except Exception as e:  # noqa: BLE001
+                extra["impl"] = {"exc": type(e).__name__}
         elif k == "cutenter":
             rm = set(op["rm"])
             y = cut_tree(t, enter=lambda n, pv: ((0 if pv is None else pv + 1), as_flag(int(n.id) in rm, flag)))
@@ -588,6 +613,12 @@ class Ops(Suite):
         # `_enter` / `_leave` calling the user's callback (the callback is encoded as for the model ops; the generated op runs it statefully)
         if case["op"]["op"] == "tosub":
             out.append((f"gtosubtree {a}", want))
+            im = res.get("impl")
+            if im and "exc" not in im:
+                out.append((f"gsubimpl ids={gen.ints(im['in_ids'])} pids={gen.ints(im['in_pids'])} types={gen.ints(im['in_types'])} xs={gen.ints(im['in_r8'])} "
+                            f"subids={gen.ints(im['sub_ids'])} subpids={gen.ints(im['sub_pids'])}",
+                            " / ".join(gen.ints(im[c]).replace("_", "") for c in ("id", "pid", "type", "r8", "mapping")) + f" / {im['n']} / "
+                            + ("same" if im["same"] else "CHANGED")))
         elif case["op"]["op"] in ("cutenter", "cutdepth", "cutleave"):
             out.append((f"g{k} {a}", want))
         elif case["op"]["op"] in ("cuttype", "cutorder"):
